@@ -380,30 +380,91 @@ Proof.
 Qed.
 
 (* ------------------------------------------------------------------ naming (_ir._add_name) *)
-Lemma add_name_fresh : forall A n n' A',
-  NoDup A -> add_name A n = Some (n', A') ->
-  ~ In n' A /\ A' = n' :: A /\ NoDup A'.
+Lemma dec_inj : forall k k', dec k = dec k' -> k = k'.
 Proof.
-  intros A n n' A' Hnd H. unfold add_name in H.
-  destruct (smem n A) eqn:E1.
-  - destruct (smem (gen_name n (List.length A)) A) eqn:E2; [discriminate|].
-    inversion H; subst. apply (memb_false String.eqb String.eqb_eq) in E2.
-    repeat split; try assumption. constructor; assumption.
-  - inversion H; subst. apply (memb_false String.eqb String.eqb_eq) in E1.
-    repeat split; try assumption. constructor; assumption.
+  intros k k' E. unfold dec in E.
+  assert (H : Some (Nat.to_uint k) = Some (Nat.to_uint k')).
+  { rewrite <- (NilEmpty.usu (Nat.to_uint k)), <- (NilEmpty.usu (Nat.to_uint k')), E. reflexivity. }
+  inversion H as [H'].
+  rewrite <- (DecimalNat.Unsigned.of_to k), <- (DecimalNat.Unsigned.of_to k'), H'. reflexivity.
 Qed.
 
-Lemma assign_names_unique : forall ns A out fin,
-  NoDup A -> assign_names A ns = Some (out, fin) ->
+Lemma append_inj_l : forall a x y, (a ++ x)%string = (a ++ y)%string -> x = y.
+Proof. induction a as [|c a IH]; simpl; intros x y E; [assumption|]. inversion E. auto. Qed.
+
+Lemma gen_name_inj : forall n i j, gen_name n i = gen_name n j -> i = j.
+Proof.
+  intros n i j E. unfold gen_name in E. apply append_inj_l in E. apply append_inj_l in E.
+  apply dec_inj. assumption.
+Qed.
+
+Lemma find_index_some : forall f A n i k, find_index f A n i = Some k -> ~ In (gen_name n k) A /\ (i <= k)%nat.
+Proof.
+  induction f as [|f IH]; simpl; intros A n i k H; [discriminate|].
+  destruct (smem (gen_name n i) A) eqn:E.
+  - destruct (IH _ _ _ _ H) as [H1 H2]. split; [assumption | lia].
+  - inversion H; subst. split; [|lia]. apply (memb_false String.eqb String.eqb_eq). assumption.
+Qed.
+
+Lemma find_index_none : forall f A n i, find_index f A n i = None ->
+  forall j, (i <= j < i + f)%nat -> In (gen_name n j) A.
+Proof.
+  induction f as [|f IH]; simpl; intros A n i H j Hj; [lia|].
+  destruct (smem (gen_name n i) A) eqn:E; [|discriminate].
+  destruct (Nat.eq_dec j i) as [->|Hne].
+  - apply smem_spec. assumption.
+  - apply (IH _ _ _ H). lia.
+Qed.
+
+Lemma NoDup_gen_names : forall n len i, NoDup (map (gen_name n) (seq i len)).
+Proof.
+  intros n len. induction len as [|len IH]; intro i; simpl; constructor.
+  - intro H. apply in_map_iff in H. destruct H as [j [E Hj]]. apply gen_name_inj in E.
+    apply in_seq in Hj. lia.
+  - apply IH.
+Qed.
+
+(* the while loop terminates within |assigned| + 1 iterations: |assigned| + 1 distinct candidates cannot all
+   be members of the set *)
+Lemma find_index_total : forall A n i, exists k, find_index (S (List.length A)) A n i = Some k.
+Proof.
+  intros A n i. destruct (find_index (S (List.length A)) A n i) as [k|] eqn:E; [eauto|].
+  exfalso.
+  assert (Hincl : incl (map (gen_name n) (seq i (S (List.length A)))) A).
+  { intros x Hx. apply in_map_iff in Hx. destruct Hx as [j [<- Hj]]. apply in_seq in Hj.
+    apply (find_index_none _ _ _ _ E). lia. }
+  pose proof (NoDup_incl_length (NoDup_gen_names n (S (List.length A)) i) Hincl) as H.
+  rewrite map_length, seq_length in H. lia.
+Qed.
+
+(* _add_name always returns a name that was not in the set, and adds exactly it *)
+Lemma add_name_fresh : forall A n,
+  exists n', add_name A n = Some (n', n' :: A) /\ ~ In n' A.
+Proof.
+  intros A n. unfold add_name. destruct (smem n A) eqn:E1.
+  - destruct (find_index_total A n (List.length A)) as [k Hk]. rewrite Hk.
+    eexists. split; [reflexivity|]. apply (find_index_some _ _ _ _ _ Hk).
+  - exists n. split; [reflexivity|]. apply (memb_false String.eqb String.eqb_eq). assumption.
+Qed.
+
+(* the name is kept when it is free *)
+Lemma add_name_keeps : forall A n, ~ In n A -> add_name A n = Some (n, n :: A).
+Proof.
+  intros A n H. unfold add_name. apply (memb_false String.eqb String.eqb_eq) in H.
+  unfold smem. rewrite H. reflexivity.
+Qed.
+
+Lemma assign_names_unique : forall ns A, NoDup A ->
+  exists out fin, assign_names A ns = Some (out, fin) /\
   NoDup out /\ (forall x, In x out -> ~ In x A) /\ NoDup fin /\
   List.length out = List.length ns /\ (forall x, In x fin <-> In x out \/ In x A).
 Proof.
-  induction ns as [|n ns IH]; intros A out fin Hnd H; simpl in H.
-  - inversion H; subst. repeat split; try assumption; try constructor; simpl; tauto.
-  - destruct (add_name A n) as [[n' A']|] eqn:E1; [|discriminate].
-    destruct (assign_names A' ns) as [[out' fin']|] eqn:E2; [|discriminate].
-    inversion H; subst. destruct (add_name_fresh _ _ _ _ Hnd E1) as [F1 [F2 F3]]. subst A'.
-    destruct (IH _ _ _ F3 E2) as [G1 [G2 [G3 [G4 G5]]]].
+  induction ns as [|n ns IH]; intros A Hnd; simpl.
+  - exists [], A. repeat split; try assumption; try constructor; simpl; tauto.
+  - destruct (add_name_fresh A n) as [n' [E1 F1]]. rewrite E1.
+    assert (F3 : NoDup (n' :: A)) by (constructor; assumption).
+    destruct (IH _ F3) as [out [fin [E2 [G1 [G2 [G3 [G4 G5]]]]]]]. rewrite E2.
+    exists (n' :: out), fin. split; [reflexivity|].
     split; [|split; [|split; [|split]]].
     + constructor; [|assumption]. intro Hin. apply (G2 _ Hin). left. reflexivity.
     + intros x [Hx|Hx] HA.
@@ -415,79 +476,3 @@ Proof.
       * destruct Hx; auto.
       * destruct Hx; auto.
 Qed.
-
-(* S3: the generated name collides with a name the user wrote *)
-Lemma assign_names_refuted :
-  assign_names [] ["a"; "a$2"; "a"]%string = None /\ no_dollar "a"%string = true.
-Proof. vm_compute. split; reflexivity. Qed.
-
-(* ---- the assertion never fails when the names the user wrote contain no `$` ---- *)
-Lemma dollar_split : forall a b x y,
-  no_dollar a = true -> no_dollar b = true ->
-  (a ++ "$" ++ x)%string = (b ++ "$" ++ y)%string -> a = b /\ x = y.
-Proof.
-  induction a as [|c a IH]; destruct b as [|c' b]; simpl; intros x y Ha Hb E.
-  - inversion E. auto.
-  - inversion E; subst. apply andb_true_iff in Hb. destruct Hb as [Hb _]. simpl in Hb. discriminate.
-  - inversion E; subst. apply andb_true_iff in Ha. destruct Ha as [Ha _]. simpl in Ha. discriminate.
-  - inversion E; subst. apply andb_true_iff in Ha. apply andb_true_iff in Hb.
-    destruct Ha as [_ Ha]. destruct Hb as [_ Hb]. destruct (IH b x y Ha Hb H1). subst. auto.
-Qed.
-
-Lemma app_dollar : forall b s, no_dollar (b ++ String "$"%char s) = false.
-Proof.
-  induction b as [|c b IH]; intro s; simpl.
-  - reflexivity.
-  - rewrite IH. apply andb_false_r.
-Qed.
-
-Lemma gen_name_dollar : forall b k, no_dollar (gen_name b k) = false.
-Proof. intros b k. unfold gen_name. simpl. apply app_dollar. Qed.
-
-Lemma dec_inj : forall k k', dec k = dec k' -> k = k'.
-Proof.
-  intros k k' E. unfold dec in E.
-  assert (H : Some (Nat.to_uint k) = Some (Nat.to_uint k')).
-  { rewrite <- (NilEmpty.usu (Nat.to_uint k)), <- (NilEmpty.usu (Nat.to_uint k')), E. reflexivity. }
-  inversion H as [H'].
-  rewrite <- (DecimalNat.Unsigned.of_to k), <- (DecimalNat.Unsigned.of_to k'), H'. reflexivity.
-Qed.
-
-(* every assigned name is a user name or was generated when the set was smaller *)
-Definition NamesInv (A : list string) : Prop :=
-  forall x, In x A ->
-    no_dollar x = true \/ exists b k, no_dollar b = true /\ (k < List.length A)%nat /\ x = gen_name b k.
-
-Lemma add_name_total : forall A n,
-  NamesInv A -> no_dollar n = true -> exists n' , add_name A n = Some (n', n' :: A) /\ NamesInv (n' :: A).
-Proof.
-  intros A n HI Hn. unfold add_name.
-  assert (Hup : forall n', (no_dollar n' = true \/ exists b k, no_dollar b = true /\
-                            (k < S (List.length A))%nat /\ n' = gen_name b k) -> NamesInv (n' :: A)).
-  { intros n' Hn' x [Hx|Hx].
-    - subst. simpl. exact Hn'.
-    - destruct (HI x Hx) as [H|[b [k [H1 [H2 H3]]]]]; [left; assumption|].
-      right. exists b, k. simpl. repeat split; try assumption. lia. }
-  destruct (smem n A) eqn:E1.
-  - destruct (smem (gen_name n (List.length A)) A) eqn:E2.
-    + exfalso. apply smem_spec in E2. destruct (HI _ E2) as [H|[b [k [H1 [H2 H3]]]]].
-      * rewrite gen_name_dollar in H. discriminate.
-      * unfold gen_name in H3. destruct (dollar_split _ _ _ _ Hn H1 H3) as [_ H4].
-        apply dec_inj in H4. lia.
-    + eexists. split; [reflexivity|]. apply Hup. right. exists n, (List.length A). repeat split; auto.
-  - exists n. split; [reflexivity|]. apply Hup. left. assumption.
-Qed.
-
-Theorem assign_names_total : forall ns A,
-  NamesInv A -> (forall n, In n ns -> no_dollar n = true) ->
-  exists out fin, assign_names A ns = Some (out, fin).
-Proof.
-  induction ns as [|n ns IH]; intros A HI Hns; simpl.
-  - eauto.
-  - destruct (add_name_total A n HI (Hns n (or_introl eq_refl))) as [n' [E HI']].
-    rewrite E. destruct (IH (n' :: A) HI' (fun x Hx => Hns x (or_intror Hx))) as [out [fin E2]].
-    rewrite E2. eauto.
-Qed.
-
-Lemma names_inv_user : forall A, (forall x, In x A -> no_dollar x = true) -> NamesInv A.
-Proof. intros A H x Hx. left. apply H. assumption. Qed.
